@@ -136,10 +136,28 @@ class PathEnum:
             a = self.ev(e_['l'], env)
             b = self.ev(e_['r'], env)
             cb = cval(e_['r'])
+            # both operands single values: exact
+            if a is not None and b is not None and len(a.r) == 1 and a.r[0][0] == a.r[0][1] and len(b.r) == 1 and b.r[0][0] == b.r[0][1]:
+                x, y = a.r[0][0], b.r[0][0]
+                v = {'+': x + y, '-': x - y, '|': x | y, '&': x & y, '^': x ^ y, '*': x * y,
+                     '<<': (x << y) if y < 32 else 0, '>>': (x >> y) if y < 32 else 0}.get(op)
+                if v is not None:
+                    v &= M32
+                    return ISet([(v, v)])
             if op == '-' and a is not None and cb is not None:
                 return a.add_const(-cb)
             if op == '+' and a is not None and cb is not None:
                 return a.add_const(cb)
+            if op == '+' and b is not None and cval(e_['l']) is not None:
+                return b.add_const(cval(e_['l']))
+            if op == '+' and a is not None and b is not None:
+                out = []
+                for x0, x1 in a.r:
+                    for y0, y1 in b.r:
+                        if x1 + y1 > M32:
+                            return ISet.full()
+                        out.append((x0 + y0, x1 + y1))
+                return ISet(out)
             if op == '<<' and a is not None and cb is not None:
                 return a.shl(cb)
             if op == '>>' and a is not None and cb is not None:
